@@ -1801,7 +1801,7 @@ def generate(repo):
 
 def write(repo=None, outfile=None):
     repo = repo or os.environ.get("VERIF_REPO", "/repo")
-    outfile = outfile or os.path.join(VERIF, "coq", "gen", "ProxGen.v")
+    outfile = outfile or os.path.join(os.environ.get("VERIF_GEN_OUT") or os.path.join(VERIF, "coq", "gen"), "ProxGen.v")
     blocks, status = generate(repo)
     bad = {k: v for k, v in status.items() if v != "ok"}
     st = "ok" if not bad else "translator-out-of-grammar"
